@@ -8,6 +8,9 @@ import (
 )
 
 func init() {
+	vk.Register("debug.hl", func(p vbase.Params, r *vbase.Result) {
+		RunHiddenLock(int(p.Seed%2), Rulesets[0], "eddsa", vbase.NewRng(p.Seed, "dbg"), r, func(m *Monitors) { m.Commit = true })
+	})
 	vk.Register("C01.sim", simCampaign("C01", func(m *Monitors) { m.Commit = true }, false))
 	vk.Register("C03.sim", simCampaign("C03", func(m *Monitors) { m.Vote = true }, false))
 	vk.Register("C07.sim", simCampaign("C07", func(m *Monitors) { m.Pace = true }, false))
@@ -125,6 +128,25 @@ func simCampaign(prop string, enable func(*Monitors), clients bool) vk.Campaign 
 							if c != nil {
 								finish(c, c.Cfg.String()+" "+c.Cfg.Label, -di, "directed")
 							}
+						}
+					}
+				}
+			}
+		}
+		if !clients {
+			hi := 0
+			for _, rs := range Rulesets[:2] {
+				for variant := 0; variant < 2; variant++ {
+					for _, scheme := range []string{"eddsa", "ecdsa"} {
+						hi++
+						if !p.Mine(hi) {
+							continue
+						}
+						rng := vbase.NewRng(p.Seed, "hidden-lock", rs, variant, scheme)
+						if c := RunHiddenLock(variant, rs, scheme, rng, r, enable); c != nil {
+							finish(c, c.Cfg.String()+" "+c.Cfg.Label, -1000-hi, "directed")
+							r.Obs(fmt.Sprintf("hidden_lock_%s_v%d_commits_others", rs, variant), int64(len(c.Mon.commits[0])+len(c.Mon.commits[1])))
+							r.Obs(fmt.Sprintf("hidden_lock_%s_v%d_commits_victim", rs, variant), int64(len(c.Mon.commits[2])))
 						}
 					}
 				}
